@@ -3,6 +3,7 @@
    reads ONLY the table: field ids, the TType constants written in the text, the method kinds, the order of the rows'
    fields; the TType a `write_<k>_field` / `<k>_field_len` helper announces comes from the regenerated list of the
    runtime's Ext traits (Generated/ExtTable.v).  No schema in this file, no proofs. *)
+From Coq Require Import String.
 From PVGen Require Export EmitOps Generated.ExtTable.
 Open Scope Z_scope.
 
@@ -264,3 +265,217 @@ Definition den_encode (tbl : list erow) (p : pk) (k : bk) (n : nat) (v : gval) :
   let* (ss, _) := den_enc tbl p k (VPath n) v w0 in Ok (flat ss).
 Definition den_sizeof (tbl : list erow) (p : pk) (n : nat) (v : gval) : res Z :=
   let* (m, _) := den_size tbl p (VPath n) v w0 in Ok m.
+
+(* ---------- decode (rows WITHOUT retention statements: what a plain build emits) ----------
+   The VALUE of a default expression is not lowered (IDL literals -> Rust expressions are the subject of C20: Lit.v and the
+   three-way evaluation of every default of the corpus); the denotation takes the default values as a parameter
+   [dfl row var].  Rows with retention statements (keep builds) are compared with the prescription by the table lemma
+   only; their denotation is not given here (Err EOther). *)
+Section DenDec.
+  Variable tbl : list erow.
+  Variable dfl : nat -> nat -> option gval.
+  Variable p : pk.
+
+  Definition r_kind (kd : kind) : rst -> res (gval * rst) := fun s =>
+    match kd with
+    | KBool => let* (b, s) := r_bool p s in Ok (GBool b, s)
+    | KU8 | KI8 => let* (z, s) := r_i8 s in Ok (GI8 z, s)
+    | KI16 => let* (z, s) := r_i16 p s in Ok (GI16 z, s)
+    | KI32 => let* (z, s) := r_i32 p s in Ok (GI32 z, s)
+    | KI64 => let* (z, s) := r_i64 p s in Ok (GI64 z, s)
+    | KF64 | KOrderedF64 => let* (z, s) := r_double p s in Ok (GDouble z, s)
+    | KString | KFastStr | KBytes | KBytesVec => let* (l, s) := r_bytes p s in Ok (GBytes l, s)
+    | KUuid => let* (l, s) := r_uuid s in Ok (GUuid l, s)
+    | _ => Err EOther
+    end.
+
+  (* Box::new / Arc::new are the identity on values; Message::decode of a newtype is the newtype's own read *)
+  Fixpoint rres (fuel : nat) (e : rop) : rop :=
+    match fuel with
+    | O => e
+    | Datatypes.S f =>
+        match e with
+        | RBox e' | RArc e' => rres f e'
+        | RPath n => match row tbl n with ENewtype _ _ _ d => rres f d | _ => e end
+        | _ => e
+        end
+    end.
+
+  Definition len_form0 (lf0 : lenform) (m : rst -> res (Z * rst)) : rst -> res (Z * rst) := fun s =>
+    match lf0 with
+    | LNo => Ok (0, s)
+    | LCall => m s
+    | LAdd => Err EOther
+    end.
+
+  Fixpoint find_arm (arms : list darm) (id : option Z) (ft : ttype) : option darm :=
+    match arms with
+    | [] => None
+    | a :: r =>
+        match id with
+        | Some z => if ((da_id a =? z) && ttype_eqb (da_tt a) ft)%bool then Some a else find_arm r id ft
+        | None => None
+        end
+    end.
+  Fixpoint find_uarm (arms : list uarm) (id : Z) : option uarm :=
+    match arms with
+    | [] => None
+    | a :: r => if ua_id a =? id then Some a else find_uarm r id
+    end.
+
+  Definition retains_s (d : dstruct) : bool :=
+    (ds_count d || ds_unk d || ds_skip_all d || ds_ptr d || ds_push d || ds_build_unk d)%bool.
+  Definition retains_u (d : dunion) : bool := (du_ptr d || du_unknown d)%bool.
+
+  Section Loops.
+    Variable fuel_skip : nat.
+    Variable rec : rop -> rst -> res (gval * rst).
+
+    Fixpoint dd_elems (m : nat) (e : rop) (n : Z) (s : rst) (acc : list gval) {struct m} : res (list gval * rst) :=
+      if n <=? 0 then Ok (rev acc, s) else
+      match m with
+      | O => Err EOutOfFuel
+      | Datatypes.S m' => let* (x, s) := rec e s in dd_elems m' e (n - 1) s (x :: acc)
+      end.
+
+    Fixpoint dd_pairs (m : nat) (ea eb : rop) (n : Z) (s : rst) (acc : list (gval * gval)) {struct m}
+      : res (list (gval * gval) * rst) :=
+      if n <=? 0 then Ok (rev acc, s) else
+      match m with
+      | O => Err EOutOfFuel
+      | Datatypes.S m' =>
+          let* (a, s) := rec ea s in
+          let* (b, s) := rec eb s in
+          dd_pairs m' ea eb (n - 1) s ((a, b) :: acc)
+      end.
+
+    (* loop { let field_ident = read_field_begin()?; if Stop { stop_len; break } else { begin_len }; match (id, type) arms; read_field_end()?; end_len } *)
+    Fixpoint dd_fields (m : nat) (d : dstruct) (vars : list (option gval)) (s : rst) {struct m}
+      : res (list (option gval) * rst) :=
+      match m with
+      | O => Err EOutOfFuel
+      | Datatypes.S m' =>
+          let* (h, s) := r_field_begin p s in
+          if ttype_eqb (fst h) TStop then
+            let* (_, s) := len_form0 (ds_stop_len d) (r_field_stop_len p) s in Ok (vars, s)
+          else
+            let* (_, s) := len_form0 (ds_begin_len d) (r_field_begin_len p (fst h) (snd h)) s in
+            let* (vars, s) :=
+              match find_arm (ds_arms d) (snd h) (fst h) with
+              | Some a => let* (x, s) := rec (da_read a) s in Ok (set_nth (da_var a) (Some x) vars, s)
+              | None =>
+                  match ds_skip d with
+                  | LCall => let* (_, s) := skip p fuel_skip (fst h) s in Ok (vars, s)
+                  | _ => Err EOther
+                  end
+              end in
+            let* (_, s) := len_form0 (ds_end_len d) (r_field_end_len p) s in
+            dd_fields m' d vars s
+      end.
+
+    (* the union loop: arms on the id only; the `size(&field_ident);` statement on the reader object is pure in binary and
+       balanced in compact (as in Gen.dec_variants) *)
+    Fixpoint dd_variants (m : nat) (d : dunion) (ret : option (Z * gval)) (s : rst) {struct m}
+      : res (option (Z * gval) * rst) :=
+      match m with
+      | O => Err EOutOfFuel
+      | Datatypes.S m' =>
+          let* (h, s) := r_field_begin p s in
+          if ttype_eqb (fst h) TStop then
+            let* (_, s) := len_form0 (du_stop_len d) (r_field_stop_len p) s in Ok (ret, s)
+          else
+            let* (_, s) := len_form0 (du_begin_len d) (r_field_begin_len p (fst h) (snd h)) s in
+            match match snd h with Some id => find_uarm (du_arms d) id | None => None end with
+            | Some a =>
+                match ret with
+                | None => let* (x, s) := rec (ua_read a) s in dd_variants m' d (Some (ua_id a, x)) s
+                | Some _ => Err EInvalidData
+                end
+            | None =>
+                match du_skip d with
+                | LCall => let* (_, s) := skip p fuel_skip (fst h) s in dd_variants m' d ret s
+                | _ => Err EOther
+                end
+            end
+      end.
+  End Loops.
+
+  Fixpoint init_vars (n : nat) (i : nat) (inits : list dinit) : list (option gval) :=
+    match inits with
+    | [] => []
+    | INone :: r => None :: init_vars n (Datatypes.S i) r
+    | IConst _ :: r => dfl n i :: init_vars n (Datatypes.S i) r
+    end.
+
+  (* after the loop: `let Some(var) = var else { Err(InvalidData) }` for the listed variables, the late defaults, Self { .. } *)
+  Fixpoint dd_finish (n : nat) (d : dstruct) (build : list (string * nat)) (vars : list (option gval)) : res (list (Z * gval)) :=
+    match build with
+    | [] => Ok []
+    | (_, var) :: rb =>
+        match nth_error vars var, arm_of_var (ds_arms d) var with
+        | Some v, Some id =>
+            let* rest := dd_finish n d rb vars in
+            match v with
+            | Some x => Ok ((id, x) :: rest)
+            | None =>
+                match dfl n var with
+                | Some dv => Ok ((id, dv) :: rest)
+                | None => if existsb (Nat.eqb var) (ds_required d) then Err EInvalidData else Ok rest
+                end
+            end
+        | _, _ => Err EOther
+        end
+    end.
+
+  Fixpoint den_dec (fuel : nat) (e : rop) (s : rst) {struct fuel} : res (gval * rst) :=
+    match fuel with
+    | O => Err EOutOfFuel
+    | Datatypes.S f =>
+        match rres (vfuel tbl) e with
+        | RK kd => r_kind kd s
+        | RVoid =>
+            let* (_, s) := r_struct_begin p s in
+            let* (_, s) := r_struct_end p s in Ok (GVoid, s)
+        | RList e1 =>
+            let* (h, s) := r_coll_begin p s in
+            let* (l, s) := dd_elems (den_dec f) (Datatypes.S f) e1 (snd h) s [] in
+            Ok (GList l, s)
+        | RSet _ e1 =>
+            let* (h, s) := r_coll_begin p s in
+            let* (l, s) := dd_elems (den_dec f) (Datatypes.S f) e1 (snd h) s [] in
+            Ok (GSet l, s)
+        | RMap _ ea eb =>
+            let* (h, s) := r_map_begin p s in
+            let* (l, s) := dd_pairs (den_dec f) (Datatypes.S f) ea eb (snd h) s [] in
+            Ok (GMap l, s)
+        | RPath n =>
+            match row tbl n with
+            | EEnum _ => let* (z, s) := r_i32 p s in Ok (GEnum z, s)
+            | EStruct _ _ _ _ _ d =>
+                if retains_s d then Err EOther else
+                let* (_, s) := r_struct_begin p s in
+                let* (vars, s) := dd_fields f (den_dec f) (Datatypes.S f) d (init_vars n 0 (ds_inits d)) s in
+                let* (_, s) := r_struct_end p s in
+                let* out := dd_finish n d (ds_build d) vars in
+                Ok (GStruct out [], s)
+            | EUnion _ enc _ _ _ d =>
+                if retains_u d then Err EOther else
+                let* (_, s) := r_struct_begin p s in
+                let* (ret, s) := dd_variants f (den_dec f) (Datatypes.S f) d None s in
+                let* (_, s) := r_struct_end p s in
+                match ret with
+                | Some (id, x) => Ok (GUnion id x, s)
+                | None =>
+                    if du_void_ok d then
+                      match enc with
+                      | f0 :: _ => Ok (GUnion (ef_id f0) GVoid, s)       (* Ok(Name::Ok(())): the first variant *)
+                      | [] => Err EInvalidData
+                      end
+                    else Err EInvalidData
+                end
+            | _ => Err EOther
+            end
+        | RBox _ | RArc _ => Err EOther
+        end
+    end.
+End DenDec.
